@@ -65,10 +65,116 @@ ASSUMPTIONS = [
 PREP_RE = re.compile(r"Cmpt Prep$")
 GLB = ["Execute graph", "SenFusedDeviceNode", "AIU Roundtrip", "Flex RoundTrip", "PostKeys", "FetchKeys", "Callback",
        "HostPrep", "AllocateFrame of", "Update CBs"]
+
+
+# ---------------------------------------------------------------- the documented rules that look at a slice NAME
+def is_prep_name(name):
+    """README "keep_prep" / --keep_prep help: the *prep* events of the accelerator are replaced by the ConcurrentPreps
+    counter.  A FLEX prep event is the `Cmpt Prep` phase of a kernel: its name ENDS in "Cmpt Prep" (case-sensitive)."""
+    return PREP_RE.search(name) is not None
+
+
+def is_global_name(name):
+    """--drop_globals ("drop throw-away events", drop_global_events' list of space takers): the name CONTAINS one of
+    the listed keywords, case-sensitive"""
+    return any(g in name for g in GLB)
+
+
+def well_formed_name(name):
+    """the well-formed name domain of DESIGN.md 8.7: the tool checks its two FLEX classifiers against each other and
+    aborts when they disagree, which they do when a phase keyword is not the suffix of the name, when a DMA keyword is
+    part of a longer word, and when a dialect name that one of them compares with == is only contained in the name"""
+    for k in ("Cmpt Prep", "Cmpt Exec"):
+        if k in name and name.find(k) != len(name) - len(k):       # every occurrence is the suffix
+            return False
+    if "DmaI" in name or "DmaO" in name or "Compute of" in name or "Barrier:" in name or "PrepareAndSyncRdma" in name:
+        return False                    # no removal rule reads them; left to the fixed vocabulary of the shared generator
+    if "Flex RoundTrip" in name and name != "Flex RoundTrip":
+        return False
+    return bool(name.strip())
+
+
+def _edits(pat):
+    """near misses of a rule's pattern: other case, every single character removed, the blank doubled / replaced /
+    removed, two neighbours swapped - none of them contains the pattern itself"""
+    out = [pat.lower(), pat.upper(), pat.swapcase(), pat[0].swapcase() + pat[1:], pat[:-1] + pat[-1].swapcase()]
+    out += [pat[:i] + pat[i + 1:] for i in range(len(pat))]
+    out += [pat[:i] + pat[i + 1] + pat[i] + pat[i + 2:] for i in range(0, len(pat) - 1, 3)]
+    if " " in pat:
+        out += [pat.replace(" ", "  "), pat.replace(" ", "_"), pat.replace(" ", "-")]
+    else:
+        m = len(pat) // 2
+        out += [pat[:m] + " " + pat[m:], pat[:m] + "_" + pat[m:]]
+    return [x for x in dict.fromkeys(out) if pat not in x]
+
+
+_NEAR = None
+
+
+def near_miss_names():
+    """NAMES AS DATA: slice names around every documented removal rule that reads the name - near misses (which no rule
+    removes) and hits in unusual positions (which the rule may remove).  What may be removed is decided by
+    is_prep_name / is_global_name, i.e. by the documented rule, never by the tool."""
+    global _NEAR
+    if _NEAR is not None:
+        return _NEAR
+    stems = ["conv", "Tokenizer", "Weights", "mm_3 Wgt", "add_11"]
+    out = []
+    P = "Cmpt Prep"
+    for st in stems:
+        out += [f"{st} Prep", f"Prep {st}", f"{st}_Prep", f"{st}Prep", f"{st} Prep_1", f"{st} Prep Exec", f"{st} prep",
+                f"{st} PREP", f"{st} Prepare", f"{st} {P}", f"{st}X{P}", f"{st}_{P}"]
+        out += [f"{st} {v}" for v in _edits(P)]
+    out += ["Prep", " Prep", "Preprocess_3", "PrepQueue fill", "Prepare", "Host Prep", "Device Prep", P, "X" + P]
+    out += _edits(P)
+    for K in GLB:
+        out += [K, K + "s", "x" + K + "y", f"pre {K} 3", f"{K} Prep", f"{K[:4]} Prep"]
+        out += _edits(K) + [f"{v} 7" for v in _edits(K)[:6]]
+    _NEAR = [n for n in dict.fromkeys(out) if well_formed_name(n)]
+    return _NEAR
+
+
+KERNEL_BASES = ["Prep_conv", "conv_Prep", "Weights Prep", "Prep", "HostPrep_2", "Hostprep_2", "callback_k", "Callback_k",
+                "Cmpt_Prep_k", "cmpt prep", "PostKey_1", "Exec Prep"]
+
+
+def near_miss_rename(r, s):
+    """rename host slices and whole-span device slices to names of near_miss_names(), and give some kernels a base name
+    that carries a rule keyword in front of its (unchanged) phase suffix"""
+    pool = near_miss_names()
+    n = 0
+    hosts = [u for u, t in s.truth.items() if t["kind"] == "host" and t["name"].startswith("HostFn_")]
+    devs = [u for u, t in s.truth.items() if t["kind"] == "other"]
+    for u in hosts + devs:
+        if r.random() < 0.6:
+            rename_slice(s, u, r.choice(pool))
+            n += 1
+    if r.random() < 0.5:
+        bases = {}
+        for u, t in s.truth.items():
+            if t["kind"] in ("Cmpt Prep", "Cmpt Exec") and t["name"].endswith(" " + t["kind"]):
+                b = t["name"][:-len(t["kind"]) - 1]
+                if b not in bases:
+                    bases[b] = r.choice(KERNEL_BASES) if r.random() < 0.4 else None
+                if bases[b] and well_formed_name(f"{bases[b]} {t['kind']}"):
+                    rename_slice(s, u, f"{bases[b]} {t['kind']}")
+                    n += 1
+    s.meta["near_miss_names"] = n
 DROP_STAGES = ["normalize_phase1", "queueing_counter", "drop_global_events", "processing_filter",
                "detect_partial_overlap_events"]
 RULE_OF_STAGE = {"normalize_phase1": (0, 1), "queueing_counter": (2,), "drop_global_events": (3,),
                  "processing_filter": (4,), "detect_partial_overlap_events": (5,)}
+
+
+def rename_slice(s, u, new):
+    """give slice u of scenario s the name `new` (the X record, or the B record and the E record right behind it)"""
+    for evs in s.files.values():
+        for i, e in enumerate(evs):
+            if e2e.uid_of(e) == u and e.get("ph", "X") in ("X", "B"):
+                e["name"] = new
+                if e.get("ph") == "B" and i + 1 < len(evs) and evs[i + 1].get("ph") == "E":
+                    evs[i + 1]["name"] = new
+    s.truth[u]["name"] = new
 
 
 def _tr():
@@ -137,7 +243,8 @@ def gen_options(r, s):
         d["collide"] = True      # two input files of the run share a job id (file names chosen when written)
     if r.random() < 0.25:
         d["filter"] = r.choice(["name:Exec$", "name:^HostFn_[01]", "args.uid:[37]$", "args.note:^1", "comment:note",
-                                "name:Exec$,args.uid:2$", "name:DmaO$"])
+                                "name:Exec$,args.uid:2$", "name:DmaO$", "name: Prep$", "name:Prep", "name:[Cc]allback",
+                                "name:^Cmpt"])
         o += ["--event_filter", d["filter"]]
     return o, d
 
@@ -226,8 +333,8 @@ def analyse(s, desc, res, args):
         aevs.append({"uid": uz(u), "x": True, "meta": False,
                      "inwin": (t["end"] >= ts_start) and (t["start"] <= ts_end),
                      "filt": matches_filter(args.event_filter, name, a, top),
-                     "prep": PREP_RE.search(name) is not None,
-                     "glob": any(g in name for g in GLB),
+                     "prep": is_prep_name(name),
+                     "glob": is_global_name(name),
                      "ovl": u in ovl_dropped})
     return names, arrival, exported, exp_uids, drops, other_drops, dups, aevs
 
@@ -268,9 +375,9 @@ def oracle(s, desc, args, res, arrival, exported, drops):
         top = {k: v for k, v in e.items() if k not in ("attr", "args", "name")}
         if matches_filter(desc.get("filter") or "", t["name"], a, top):
             continue
-        if prep_active and PREP_RE.search(t["name"]) and not args.keep_prep:
+        if prep_active and is_prep_name(t["name"]) and not args.keep_prep:
             continue
-        if args.drop_globals and any(g in t["name"] for g in GLB):
+        if args.drop_globals and is_global_name(t["name"]):
             continue
         if args.filter != "" and "X" not in args.filter:
             continue
@@ -377,6 +484,8 @@ def one(ctx, r, atoms, work, case=None):
     """generate (or take) one case, run it, return record"""
     if case is None:
         s = epoch_host_scenario(r) if r.random() < 0.06 else scenario.gen_scenario(r)
+        if r.random() < 0.5 and not s.meta.get("epoch_host"):
+            near_miss_rename(r, s)
         if r.random() < 0.15 and not s.meta.get("epoch_host"):
             repeat_records(r, s)
         if s.ranks >= 2 and r.random() < 0.5 and not s.meta.get("epoch_host"):
@@ -450,11 +559,15 @@ def run(ctx):
     finally:
         shutil.rmtree(work, ignore_errors=True)
     fails, terms, idx = [], [], []
-    dist = {"ranks": {}, "slices": {}, "options": {}, "crashes": 0, "stages": {}}
+    dist = {"ranks": {}, "slices": {}, "options": {}, "crashes": 0, "stages": {}, "cases_with_near_miss_names": 0,
+            "near_miss_named_slices": 0}
     seen, nontriv = set(), 0
     for i, rec in enumerate(recs):
         sm = rec["summary"]
         dist["ranks"][sm["ranks"]] = dist["ranks"].get(sm["ranks"], 0) + 1
+        nm = rec["s"].meta.get("near_miss_names", 0)
+        dist["cases_with_near_miss_names"] += int(nm > 0)
+        dist["near_miss_named_slices"] += nm
         b = min(sm["slices"] // 10 * 10, 60)
         dist["slices"][b] = dist["slices"].get(b, 0) + 1
         for o in rec["opts"]:
@@ -494,7 +607,9 @@ def run(ctx):
     return {
         "evaluations": len(recs), "distinct_nontrivial": nontriv,
         "rule": "scenarios from harness/common/scenario.py (1-4 rank files, host+device lanes, B/E and X, wraps, pipelined "
-                "kernels, globals, zero/negative durations, user keys) x random documented option sets (keep_prep, -M, "
+                "kernels, globals, zero/negative durations, user keys; in half of them host slices, whole-span device "
+                "slices and kernel base names are renamed to near misses / unusual hits of the name-reading removal rules "
+                "(Prep suffix, --drop_globals keywords) inside the well-formed name domain of DESIGN 8.7) x random documented option sets (keep_prep, -M, "
                 "--disable_tb, --tb, --drop_globals, -C subsets, -F, -O drop, --flow, -I, -t, --power-stats, --event_limit, "
                 "--event_filter). non-trivial = distinct (scenario, options) where some stage discarded slices or >= 2 ranks "
                 "were buffered by clock alignment",
